@@ -102,12 +102,14 @@ fn inc(x: u64) -> u64 { x.wrapping_add(1) }
 
 #[inline(never)] pub fn t61(a: u64, b: u64) -> u64 { let s = small(a); let mut v: Vec<u8> = s.to_vec(); let opts = [opt(b).map(|x| (x % 7) as u8), Some(9), opt(b >> 1).map(|x| (x % 5) as u8)]; v.splice(1..3, opts.into_iter().flatten()); v.splice(..1, [7u8, 7]); v.iter().fold(0u64, |acc, &e| (acc * 11 + u64::from(e)) % 1_000_003) + 1_000_003 * v.len() as u64 }
 
+#[inline(never)] pub fn t62(a: u64, b: u64) -> u64 { let s = small(a); let mut v: Vec<u8> = Vec::new(); for (i, &e) in s.iter().enumerate() { if (b >> i) & 1 == 1 { v.push(e); } } let p1 = v.pop().map_or(9, u64::from); let p2 = v.pop().map_or(9, u64::from); v.iter().fold(p1 * 10 + p2, |acc, &e| (acc * 11 + u64::from(e)) % 1_000_003) + 1_000_003 * v.len() as u64 }
+
 fn main() {
     let args: Vec<String> = std::env::args().collect();
     let id: usize = args[1].parse().unwrap();
     let a: u64 = args[2].parse().unwrap();
     let b: u64 = args[3].parse().unwrap();
-    let fs: [fn(u64, u64) -> u64; 62] = [t00, t01, t02, t03, t04, t05, t06, t07, t08, t09, t10, t11, t12, t13, t14, t15, t16, t17, t18, t19, t20, t21, t22, t23, t24, t25, t26, t27, t28, t29, t30, t31, t32, t33, t34, t35, t36, t37, t38, t39, t40, t41, t42, t43, t44, t45, t46, t47, t48, t49, t50, t51, t52, t53, t54, t55, t56, t57, t58, t59, t60, t61];
+    let fs: [fn(u64, u64) -> u64; 63] = [t00, t01, t02, t03, t04, t05, t06, t07, t08, t09, t10, t11, t12, t13, t14, t15, t16, t17, t18, t19, t20, t21, t22, t23, t24, t25, t26, t27, t28, t29, t30, t31, t32, t33, t34, t35, t36, t37, t38, t39, t40, t41, t42, t43, t44, t45, t46, t47, t48, t49, t50, t51, t52, t53, t54, t55, t56, t57, t58, t59, t60, t61, t62];
     let r = std::panic::catch_unwind(|| fs[id](a, b));
     match r { Ok(v) => println!("OK {v}"), Err(_) => println!("PANIC") }
 }
